@@ -26,3 +26,8 @@ def run(ctx) -> None:
     under_op = [r for r in res if r.rule.split(".")[0] in ("R1", "R2", "R3", "D", "D1") and
                 ("ops" in r.tags or "closure" in r.tags) and "rewritten" not in r.atom]
     report(ctx, under_op, "C03.A4", prefixes=("R", "D"))
+    # Z: end to end on stream templates: the compiled regex of whole rules, under each flag setting, searched in token
+    # templates of the instruction stream (every instantiation at once): found exactly where the property says, else not
+    from ..models import make_interp as _mk
+    from ..streamshapes import end_to_end
+    end_to_end(ctx, _mk(ctx.p), "C03", "C03.Z.found-where-the-property-says", "C03.Z.not-found-elsewhere")
